@@ -3,27 +3,34 @@ from pyvc.runner import func
 
 ID = "C18"
 META = {
-    "level": "exploration",
-    "assumptions": ["A-REAL", "A-PANDAS", "A-SOLVER", "A-ENGINE"],
-    "explanation": "The report accessors are pandas expression chains over whole histories (DataFrame construction, div, diff, unstack, boolean masks); the VC generator has no model of frames indexed by time, so their "
-    "bodies are not under contract. What is discharged deductively are the lemmas that carry the property from contract clauses proved elsewhere: cumulative trade quantities telescope to the recorded positions "
-    "(base and inductive step), security weights plus cash fractions sum to one given update's value identity at every strategy (C01), a trade replayed at the reported per-unit price pays the original outlay "
-    "(outlay clause of C05/C07), and AST obligations that Result wraps each strategy's price index and transaction list. Every stated formula - component weights, security weights aggregated over same-named "
-    "securities (+cash = 1), positions per ticker, transaction quantities and execution prices, turnover, Herfindahl index, Result prices, and the ReplayTransactions round trip - is recomputed from the node "
-    "histories of generated finished backtests by the bounded stand-in c18_reports on the real code (flat and nested trees, shared tickers, runs with no trades, shorts, bid/offer on or off, multipliers).",
+    "assumptions": ["A-REAL", "A-PANDAS", "A-T", "A-SOLVER", "A-ENGINE"],
+    "explanation": "Four report bodies are under contract over a small time-indexed frame algebra (a Series is a function of the date index, a DataFrame is known by its columns and cells, "
+    "strategy.members / .securities are abstract sequences; contracts/reports.py), each proved at a skolem member or ticker name and a skolem date on the real body, on a fresh tree and on the first "
+    "(uncached) read: Backtest.weights - every member has a column under its full name holding the member's values over the root's values (notional values for a fixed-income root) and there is no "
+    "other column; Backtest.security_weights - a ticker has a column iff some security member bears that name, and the column is the summed value of the same-named securities over the root's value "
+    "(loop invariant with a ghost sum over the member sequence), and the result is what gets cached; StrategyBase.positions and StrategyBase.outlays - a ticker has a column iff some security member "
+    "bears that name and the column is the sum of those securities' positions / outlays. Lemmas that carry the rest of the statement from contract clauses proved elsewhere: cumulative trade quantities "
+    "telescope to the recorded positions (base and inductive step), security weights plus cash fractions sum to one given update's value identity at every strategy (C01), a trade replayed at the "
+    "reported per-unit price pays the original outlay (outlay clause of C05/C07); AST-shape obligations that Result wraps each strategy's price index and transaction list. herfindahl_index, turnover, "
+    "get_transactions (unstack / diff / swaplevel reshaping), Result prices and the ReplayTransactions round trip are not under contract: every stated formula is recomputed from the node histories of "
+    "generated finished backtests by the bounded stand-in c18_reports on the real code (flat and nested trees, shared tickers, runs with no trades, shorts, bid/offer on or off, multipliers, security classes).",
 }
 MANIFEST_ENTRY = {
-    "category": "exploration",
-    "level_text": "Lemmas over proved contract clauses and AST obligations are discharged deductively; the report bodies themselves are checked only by a bounded recomputation on generated backtests, labelled bounded "
-    "and never counted as proved.",
-    "level_note": "No deductive statement about Backtest.weights / security_weights / herfindahl_index / turnover / StrategyBase.positions / outlays / get_transactions bodies: pandas frame algebra over time is outside the "
-    "VC generator's subset. The bounded stand-in found three genuine defects (execution price with a multiplier, shared-ticker spread, reports of a run without securities), all repaired in /repo.",
-    "technique": "contract-based deductive verification restricted to lemmas over contract clauses and AST obligations (z3); bounded real-code recomputation for the pandas report bodies",
+    "level_text": "Deductive proof, for all trees, names and dates, of the component-weight, security-weight, position and outlay reports (first read on a fresh tree) plus lemmas for cumulation, "
+    "weights-sum-to-one and the replay price; the Herfindahl index, turnover, the transaction list and the replay round trip are checked only by a bounded recomputation on generated backtests, labelled bounded.",
+    "level_note": "A-PANDAS: DataFrame(dict of Series) has one column per key, frame[name] = s / += s set or add to one column, .div(series, axis=0) divides every cell by the series at the same date; "
+    "the history accessors are taken to return the node's own series on a fresh tree (C08 proves that); the cached branch of weights / security_weights is excluded by precondition; members / securities "
+    "are abstract sequences (that members is the node plus its descendants is C19, bounded there). The bounded stand-in found three genuine defects (execution price with a multiplier, shared-ticker spread, "
+    "reports of a run without securities), all repaired in /repo.",
+    "technique": "contract-based deductive verification over a time-indexed frame algebra (pyvc VCs + z3; ghost sum loop invariants) + lemmas over contract clauses; bounded real-code recomputation for the reshaping reports",
 }
 
 
 def tasks(tier, seed):
     return [
+        func("bt.backtest.Backtest.weights", variant="mv"), func("bt.backtest.Backtest.weights", variant="fi"),
+        func("bt.backtest.Backtest.security_weights", variant="mv"), func("bt.backtest.Backtest.security_weights", variant="fi"),
+        func("bt.core.StrategyBase.positions"), func("bt.core.StrategyBase.outlays"),
         dict(kind="custom", module="props.lemmas", fn="c18_report_lemmas"),
         dict(kind="custom", module="props.lemmas", fn="c18_static"),
         dict(kind="custom", module="props.bounded", fn="run_script", script="c18_reports", seed=seed, n=40 if tier == "quick" else 600, props=["C18"]),
